@@ -130,6 +130,12 @@ class _TaskGen(object):
                 a = rng.choice(funpool.DEFAULT_ARGS[nm])
                 return {'name': nm}, copy.deepcopy(a)
             return {'name': rng.choice(self.k['ss'])}, None
+        inner = [n for n, o in self.objs.items()
+                 if o['cls'] == 'Derivative' and o['live'] and not o['args'] and o['depth'] < 1]
+        if inner and rng.random() < self.k['p_nested']:
+            # re-entrancy from a multivariate object: f(x) = sum_i inner'(x_i)  (or the vector itself)
+            return {'name': 'nested', 'inner': rng.choice(sorted(inner)),
+                    'post': None if cls == 'Jacobian' else 'vsum'}, None
         if cls == 'Jacobian':
             return {'name': rng.choice(self.k['vv'])}, None
         if rng.random() < 0.1:
@@ -642,6 +648,8 @@ def judge(plan, result, refs):
     sched = result['sched']
     stats = {
         'points': sched['points'], 'switches': sched['switches'],
+        'lock_blocks': sched.get('lock_blocks', 0), 'hot_points': sched.get('hot_points', 0),
+        'probe_switches': sched.get('probe_switches', 0),
         'kind_counts': dict(sched['kind_counts']),
         'faults_fired': dict(result['faults']),
         'cache': dict(result.get('cache', {})),
@@ -828,6 +836,10 @@ def evidence(tier, seed, by_mode, det, n_viol, known_hits, errors, wall):
             'faulted_calls_not_compared': s.get('faulted_calls', 0),
             'reference_evaluations': s.get('ref_evals', 0), 'reference_memo_hits': s.get('ref_memo_hits', 0),
             'yield_points': s.get('points', 0), 'preemptions': s.get('switches', 0),
+            'hot_yield_points_after_shared_writes': s.get('hot_points', 0),
+            'atomicity_probe_switches': s.get('probe_switches', 0),
+            'waits_on_library_locks': s.get('lock_blocks', 0),
+            'seeds_per_hour': int(s.get('runs', 0) * 3600 / w),
             'runs_by_ntasks': s.get('runs_by_ntasks', {}), 'max_threads': s.get('max_ntasks', 0),
             'cache': s.get('cache', {}),
             'probe_preempt_while_other_task_between_miss_and_insert': s.get('probe_switch_in_miss', 0),
